@@ -24,6 +24,7 @@ import shutil
 import subprocess
 import sys
 import tempfile
+import threading
 import time
 
 HERE = os.path.dirname(os.path.abspath(__file__))
@@ -105,6 +106,7 @@ class Check:
             self.seed = 1
         self._rngs = {}
         self.tmp = tempfile.mkdtemp(prefix='lbzverif-%s-' % pid)
+        self._drv_lock = threading.Lock()
         atexit.register(lambda: shutil.rmtree(self.tmp, ignore_errors=True))
         self.violations = []
         self.known_hits = []
@@ -289,8 +291,32 @@ run_cmd do
                 self.broken.append('theorem missing: ' + n)
 
     def driver(self):
-        return os.environ.get('LBZDRV') or os.path.join(
-            LEAN, '.lake', 'build', 'bin', 'lbzdrv')
+        """Path of the model driver.  The built binary is copied (under the
+        build lock) into this check's own scratch directory, so that another
+        check relinking it cannot remove it from under a running campaign."""
+        if os.environ.get('LBZDRV'):
+            return os.environ['LBZDRV']
+        built = os.path.join(LEAN, '.lake', 'build', 'bin', 'lbzdrv')
+        mine = os.path.join(self.tmp, 'lbzdrv')
+        with self._drv_lock:
+            try:
+                fresh = (os.path.exists(mine) and
+                         os.path.getmtime(mine) >= os.path.getmtime(built))
+            except OSError:
+                fresh = os.path.exists(mine)
+            if fresh:
+                return mine
+            lock = open(os.path.join(LEAN, '.build.lock'), 'w')
+            fcntl.flock(lock, fcntl.LOCK_EX)
+            try:
+                if os.path.exists(built):
+                    tmpn = mine + '.new'
+                    shutil.copy2(built, tmpn)
+                    os.replace(tmpn, mine)
+            finally:
+                fcntl.flock(lock, fcntl.LOCK_UN)
+                lock.close()
+        return mine if os.path.exists(mine) else built
 
     # --------------------------------------------------------------- C build
     def cc(self, name, sources, flags=(), asan=True, ndebug=False, cxx=False,
